@@ -24,6 +24,7 @@ class ObjCore(HasTraits):
     obs_count = Int(transient=True)
     post_count = Int(transient=True)
     total = Property(Int, observe="xs.items")
+    byleaf = Dict(Instance(Leaf), Int, copy="deep")      # keyed by (mutable, identity-hashed) objects
     wr = WeakRef(Leaf, allow_none=True)        # a weak reference to a Leaf somebody else keeps alive (copied by REFERENCE: copy="ref")
 
     @observe("xs.items")
